@@ -196,7 +196,7 @@ fn profile(name: &str) -> P {
             p.first_gated = 35;
             p.p_sleep = 70;
             p.sleeps = vec![2, 4, 6, 8, 10, 20];
-            p.timeouts = vec![2, 2, 4, 6, 10, 20, 50, 2, 4, 6, 10, 20, 1 << 40, 0, 4300, 66_000, 1 | HALF_MS, 3 | HALF_MS, 5 | HALF_MS, 9 | HALF_MS];
+            p.timeouts = vec![2, 2, 4, 6, 10, 20, 50, 2, 4, 6, 10, 20, 1 << 40, 0, 4300, 66_000, DUR_MAX, 1 | HALF_MS, 3 | HALF_MS, 5 | HALF_MS, 9 | HALF_MS];
             p.p_long_busy = 2;
             p.caps = vec![Some(1), Some(1), Some(2), Some(4), None];
             p.p_start_err = 3;
